@@ -8,11 +8,11 @@ namespace PvProofs.C19Dist
 open PvModel PvModel.Fees PvProofs PvProofs.C19
 
 /-- per denom: total = module part + sum over all recipients -/
-def AddsUp (s : Dist) : Prop :=
+def AddsUp (s : FeeDist) : Prop :=
   ∀ d, Coins.amountOf s.total d = Coins.amountOf s.module d + Ledger.supply s.recips d
 
 /-- nothing negative anywhere in the distribution -/
-def NonNeg (s : Dist) : Prop :=
+def NonNeg (s : FeeDist) : Prop :=
   (∀ d, 0 ≤ Coins.amountOf s.module d) ∧ (∀ r d, 0 ≤ Ledger.bal s.recips r d)
 
 theorem addsUp_empty : AddsUp {} := by intro d; simp
@@ -20,9 +20,9 @@ theorem nonNeg_empty : NonNeg {} := by constructor <;> intros <;> simp
 
 /-- The exact failing set of one call: it is refused iff there is something to split (positive
 amount, a recipient) and more than 10000 basis points are named. -/
-theorem increase_fails_iff (s : Dist) (den : Denom) (amt : Int) (bips : Nat) (rcpt : String) :
-    (∃ e, increase s den amt bips rcpt = .error e) ↔ (0 < amt ∧ rcpt ≠ "" ∧ 10000 < bips) := by
-  unfold increase
+theorem increase_fails_iff (s : FeeDist) (den : Denom) (amt : Int) (bips : Nat) (rcpt : String) :
+    (∃ e, distIncrease s den amt bips rcpt = .error e) ↔ (0 < amt ∧ rcpt ≠ "" ∧ 10000 < bips) := by
+  unfold distIncrease
   by_cases ha : amt ≤ 0
   · simp [ha]
   · by_cases hr : rcpt = ""
@@ -34,13 +34,13 @@ theorem increase_fails_iff (s : Dist) (den : Denom) (amt : Int) (bips : Nat) (rc
 
 /-- One call keeps the distribution adding up and non-negative, adds exactly the coin to the
 total, and gives the recipient exactly the floor of `amount·bips/10000`. -/
-theorem increase_step (s s' : Dist) (den : Denom) (amt : Int) (bips : Nat) (rcpt : String)
-    (hs : AddsUp s) (hn : NonNeg s) (h : increase s den amt bips rcpt = .ok s') :
+theorem increase_step (s s' : FeeDist) (den : Denom) (amt : Int) (bips : Nat) (rcpt : String)
+    (hs : AddsUp s) (hn : NonNeg s) (h : distIncrease s den amt bips rcpt = .ok s') :
     AddsUp s' ∧ NonNeg s' ∧
     (∀ d, Coins.amountOf s'.total d = Coins.amountOf s.total d + (if 0 < amt ∧ den = d then amt else 0)) ∧
     (0 < amt → rcpt ≠ "" → ∃ r, IsFloorDiv (amt * bips) 10000 r ∧
       ∀ d, Ledger.bal s'.recips rcpt d = Ledger.bal s.recips rcpt d + (if den = d then r else 0)) := by
-  unfold increase at h
+  unfold distIncrease at h
   by_cases ha : amt ≤ 0
   · simp [ha] at h; subst h
     refine ⟨hs, hn, ?_, ?_⟩
@@ -80,41 +80,41 @@ theorem increase_step (s s' : Dist) (den : Denom) (amt : Int) (bips : Nat) (rcpt
 
 /-- [all call sequences] starting from the empty distribution, every accepted sequence of
 `Increase` calls leaves a distribution whose parts add up to the whole and are non-negative. -/
-theorem increaseAll_adds_up (cs : List DistCall) (s s' : Dist)
-    (hs : AddsUp s) (hn : NonNeg s) (h : increaseAll s cs = .ok s') : AddsUp s' ∧ NonNeg s' := by
+theorem increaseAll_adds_up (cs : List FeeDistCall) (s s' : FeeDist)
+    (hs : AddsUp s) (hn : NonNeg s) (h : distIncreaseAll s cs = .ok s') : AddsUp s' ∧ NonNeg s' := by
   induction cs generalizing s with
-  | nil => simp [increaseAll] at h; subst h; exact ⟨hs, hn⟩
+  | nil => simp [distIncreaseAll] at h; subst h; exact ⟨hs, hn⟩
   | cons c rest ih =>
     obtain ⟨den, amt, bips, rcpt⟩ := c
-    simp only [increaseAll] at h
-    cases h1 : increase s den amt bips rcpt with
+    simp only [distIncreaseAll] at h
+    cases h1 : distIncrease s den amt bips rcpt with
     | error e => rw [h1] at h; cases h
     | ok s1 =>
       rw [h1] at h
       obtain ⟨a, b, _, _⟩ := increase_step s s1 den amt bips rcpt hs hn h1
       exact ih s1 a b h
 
-theorem distribution_adds_up (cs : List DistCall) (s' : Dist) (h : increaseAll {} cs = .ok s') :
+theorem distribution_adds_up (cs : List FeeDistCall) (s' : FeeDist) (h : distIncreaseAll {} cs = .ok s') :
     AddsUp s' ∧ NonNeg s' := increaseAll_adds_up cs {} s' addsUp_empty nonNeg_empty h
 
 /-- a sequence of valid calls (basis points ≤ 10000) never fails, whatever the amounts -/
-theorem increaseAll_never_fails (cs : List DistCall) (s : Dist)
-    (hb : ∀ c ∈ cs, c.2.2.1 ≤ 10000) : ∃ s', increaseAll s cs = .ok s' := by
+theorem increaseAll_never_fails (cs : List FeeDistCall) (s : FeeDist)
+    (hb : ∀ c ∈ cs, c.2.2.1 ≤ 10000) : ∃ s', distIncreaseAll s cs = .ok s' := by
   induction cs generalizing s with
   | nil => exact ⟨s, rfl⟩
   | cons c rest ih =>
     obtain ⟨den, amt, bips, rcpt⟩ := c
     have hb1 : bips ≤ 10000 := hb (den, amt, bips, rcpt) (by simp)
-    cases h1 : increase s den amt bips rcpt with
+    cases h1 : distIncrease s den amt bips rcpt with
     | error e =>
       have := (increase_fails_iff s den amt bips rcpt).mp ⟨e, h1⟩
       omega
     | ok s1 =>
       obtain ⟨s', hs'⟩ := ih s1 (fun c hc => hb c (by simp [hc]))
-      exact ⟨s', by simp [increaseAll, h1, hs']⟩
+      exact ⟨s', by simp [distIncreaseAll, h1, hs']⟩
 
 /-- non-vacuity: two recipients and the module, amounts beyond 2^64 -/
-example : ∃ s', increaseAll {} [("nhash", 2 ^ 70 + 3, 2500, "r1"), ("nhash", 10001, 9999, "r2"),
+example : ∃ s', distIncreaseAll {} [("nhash", 2 ^ 70 + 3, 2500, "r1"), ("nhash", 10001, 9999, "r2"),
     ("usd", 5, 0, ""), ("nhash", 7, 10000, "r1")] = .ok s' ∧
     Coins.amountOf s'.total "nhash" = 2 ^ 70 + 3 + 10001 + 7 ∧
     Ledger.bal s'.recips "r2" "nhash" = 9999 := by
